@@ -467,10 +467,9 @@ func TestC03Read(t *testing.T) {
 	c.readerMaxLen(rep)
 
 	// ---- (a) + (b)
-	t0 := time.Now()
 	maxFiles, maxLen, maxPL := 3, int64(5), uint32(5)
 	if core.Thorough() {
-		maxFiles, maxLen, maxPL = 4, 5, 6
+		maxFiles, maxLen, maxPL = 4, 5, 5
 	}
 	var layouts []layout
 	enumLayouts(maxFiles, maxLen, maxPL, func(l layout) { layouts = append(layouts, l) })
@@ -545,7 +544,6 @@ func TestC03Read(t *testing.T) {
 	close(work)
 	wg.Wait()
 	readsA = c.reads
-	rep.Extra["wall_pass_a_s"] = time.Since(t0).Seconds()
 
 	var shapeKeys []string
 	for k := range shapes {
@@ -600,7 +598,6 @@ func TestC03Read(t *testing.T) {
 		}
 	}
 
-	rep.Extra["wall_pass_ab_s"] = time.Since(t0).Seconds()
 	// ---- (c) 16 KiB scale
 	c.realScale(rep)
 
